@@ -38,7 +38,8 @@ EXPLANATION = (
 )
 ASSUMPTIONS = [
     "StubContext with two stubs that the exercised code paths touch: checkpoint_manager.register(data_location) is a no-op (DummyCheckpointManager behaviour) and deployment_manager.get_connector(name) returns an opaque token (RemoteStreamFlowPath.__init__ only stores it); no scheduler is consulted by the code under test",
-    "get_source_location is driven directly with coroutine.send (no event loop): its only awaits are DataLocation.available events, all set by register_path; a suspension would be reported as a violation",
+    "history obligations: get_source_location is driven directly with coroutine.send (no event loop): its only awaits are DataLocation.available events, all set by register_path; a suspension would be reported as a violation",
+    "wait_inflight obligations: an in-flight copy is a registration whose `available` event was cleared again (the state transfer_data creates for a destination before the copy completes); one get_source_location call runs as a task of lib.detloop.DetLoop while symbolic events invalidate copies / complete transfers; no new registration happens while it waits; the result is judged at the moment the call returns",
     "a location is identified by (deployment, name) as the registry does; location tables: 'D' two deployments with the same location name (the second one local), 'S' one deployment with two location names, '1' a single location, 'T' (thorough) three locations combining S and D, 'W' (thorough) three deployments where location 2 wraps location 0 through the mount /a/b -> /b (register_path then registers and relates the inner copy itself)",
     "paths are normalised absolute posix paths from a concrete tree of depth <= 3 over the alphabet {a, b} (plus the root '/'); relpath is left to its default (the path itself)",
     "data types of registrations are PRIMARY or SYMBOLIC_LINK (registering a path as INVALID is outside the claim)",
@@ -418,6 +419,93 @@ def explain_seq(variant, table, skels, sel, args):
     return _run(variant, table, skels[sel], args, explain=True)
 
 
+# ---------------------------------------------------------------- in-flight copies (get_source_location suspends)
+
+
+def prop_wait(states, dst, events) -> bool:
+    """Clause (iv) across the suspension point of get_source_location.
+
+    Three locations (table 'T') may hold "/a": states[i] = 0 absent, 1 registered and available,
+    2 registered PRIMARY but not yet available (a transfer to it is in flight: transfer_data registers
+    the destination before the copy completes). get_source_location("/a", dst) is started on the
+    deterministic loop; then each event either invalidates the copy on one location or completes one
+    in-flight transfer (sets `available`), the loop running to quiescence after each. When the call
+    returns, the result must be a currently reported, non-INVALID PRIMARY copy; it may be None only
+    if no copy stayed valid throughout; it must return once every surviving copy is available."""
+    from lib.detloop import DetLoop
+    from streamflow.core.data import DataType
+
+    locs = _locations("T")
+    dm = _new_manager()
+    p = "/a"
+    flight = {}
+    valid = []
+    for i in range(3):
+        st = _pick(states[i], 3)
+        if st is None:
+            return True
+        if st == 0:
+            continue
+        dm.register_path(locs[i], p)
+        valid.append(i)
+        if st == 2:
+            ds = [d for d in dm.get_data_locations(p, locs[i].deployment, locs[i].name) if d.path == p]
+            if len(ds) != 1:
+                return False
+            ds[0].available.clear()
+            flight[i] = ds[0]
+    d = _pick(dst, 3)
+    if d is None:
+        return True
+    dst_dep = ["d0", "d1", "dX"][d]
+
+    def verdict(task):
+        r = task.result()
+        if r is None:
+            return len(valid) == 0
+        if r.data_type != DataType.PRIMARY or r.path != p:
+            return False
+        cur = dm.get_data_locations(p, data_type=DataType.PRIMARY)
+        hit = False
+        for x in cur:
+            if x is r:
+                hit = True
+        return hit and r.available.is_set()
+
+    with DetLoop(max_steps=4000) as loop:
+        task = loop.create_task(dm.get_source_location(p, dst_dep))
+        loop.run_until_quiescent()
+        if task.done():
+            return verdict(task)
+        for ev in events:
+            e = _pick(ev, 6)
+            if e is None:
+                return True
+            j = e % 3
+            if e < 3:
+                if states[j] == 0:
+                    return True  # nothing registered there: not a meaningful event
+                dm.invalidate_location(locs[j], p)
+                if j in valid:
+                    valid.remove(j)
+            else:
+                if j not in flight:
+                    return True
+                flight.pop(j).available.set()
+            loop.run_until_quiescent()
+            if task.done():
+                return verdict(task)
+        for j in list(flight):
+            flight.pop(j).available.set()
+        loop.run_until_quiescent()
+        if not task.done():
+            task.cancel()
+            loop.run_until_quiescent()
+            return False
+        return verdict(task)
+
+
+
 # ---------------------------------------------------------------- obligations
 
 IMPORTS = "from harness.C21 import *"
@@ -606,6 +694,32 @@ def _plan(tier):
     ]
 
 
+def _wait_specs(tier):
+    K = 2 if tier == "quick" else 3
+    out = []
+    ev = [f"e{i}" for i in range(K)]
+    for s0 in range(3):
+        out.append(
+            Spec(
+                name=f"wait_inflight_s{s0}_K{K}",
+                group="(iv) get_source_location across its suspension point (in-flight copies invalidated / completed while it waits)",
+                source=mk_source(
+                    IMPORTS,
+                    "s1: int, s2: int, dst: int, " + ", ".join(f"{e}: int" for e in ev),
+                    ["0 <= s1 <= 2", "0 <= s2 <= 2", "0 <= dst <= 2"] + [f"0 <= {e} <= 5" for e in ev],
+                    f"prop_wait(({s0}, s1, s2), dst, ({', '.join(ev)},))",
+                ),
+                cond=900 if tier == "quick" else 2400,
+                path=60,
+                bound=f"path /a on the three locations of table 'T' (n0/d0, n1/d0, local n0/d1), each absent / available / in flight (location 0: {['absent', 'available', 'in flight'][s0]}, partition); "
+                f"destination deployment d0 / d1 / unrelated; {K} symbolic events (invalidate the copy on location j | complete the transfer to location j) while the call waits, then every remaining transfer completes; DetLoop, one waiter",
+                symbolic=f"2 copy states, destination, {K} events",
+                targets=("streamflow.data.manager.DefaultDataManager.get_source_location", "streamflow.data.manager.DefaultDataManager.invalidate_location", "streamflow.data.manager._RemotePathMapper.invalidate_location"),
+            )
+        )
+    return out
+
+
 def specs(tier: str):
     limit = 750 if tier == "quick" else 2400
     out, seen = [], set()
@@ -620,4 +734,4 @@ def specs(tier: str):
                 if sp.name not in seen:
                     seen.add(sp.name)
                     out.append(sp)
-    return out
+    return out + _wait_specs(tier)
